@@ -9,48 +9,83 @@ import sys, os
 sys.path.insert(0, os.path.join(os.path.dirname(os.path.dirname(os.path.dirname(os.path.abspath(__file__)))), 'tools'))
 from emit_smt import app, land, lor, lnot, implies, add, sub, mul, neg, num, ite
 
-DMAX = num('1.7976931348623157e308')
+DMAXES = {'double': num('1.7976931348623157e308'), 'float': num('3.40282347e38')}
+INSTANCES = [('double', 2), ('float', 2), ('double', 3), ('float', 3)]
 
 
 def vcs(B):
     B.unit('src/containers/grid/RayTracing.cpp')
     B.unit('src/containers/grid/GridIndexMapping.cpp')
-    P = 'romea::core::RayCasting<double, 2>'
-    B.function('RC2__setOriginPoint', P, 'setOriginPoint')
-    B.function('RC2__setEndPoint', P, 'setEndPoint')
-    B.function('RC2__next', P, 'next')
     B.prog.options['unroll_const_loops'] = '1'
+    for sc, D in INSTANCES:
+        P = 'romea::core::RayCasting<%s, %d>' % (sc, D)
+        tag = 'RC%s%d' % (sc[0], D)
+        B.function(tag + '__setOriginPoint', P, 'setOriginPoint')
+        B.function(tag + '__setEndPoint', P, 'setEndPoint')
+        B.function(tag + '__next', P, 'next')
     B.extract()
-    D = 2
+    for sc, D in INSTANCES:
+        instance(Prefixed(B, '' if (sc, D) == ('double', 2) else '%s%d.' % (sc, D)), sc, D)
+
+
+class Prefixed:
+    """the builder with every VC name prefixed by the instantiation (double,2 keeps the bare names)"""
+    def __init__(self, B, pre):
+        self.__dict__['_b'], self.__dict__['_pre'] = B, pre
+
+    def __getattr__(self, k):
+        return getattr(self._b, k)
+
+    def __setattr__(self, k, v):
+        setattr(self._b, k, v)
+
+    def vc(self, name, *a, **k):
+        return self._b.vc(self._pre + name, *a, **k)
+
+
+def fold(op, items):
+    acc = items[0]
+    for x in items[1:]:
+        acc = op(acc, x)
+    return acc
+
+
+def instance(B, sc, D):
+    """the same verification conditions for each explicit instantiation (next() is a separate hand-written specialisation in each);
+    over the reals float and double differ only in the value of numeric_limits::max()"""
+    tag = 'RC%s%d' % (sc[0], D)
+    DMAX = DMAXES[sc]
+    GI, RCS = 'GridIndexMapping_%s_%d' % (sc, D), 'RayCasting_%s_%d' % (sc, D)
     res = B.real('res')
     go = B.vec('gridorigin', D)           # flooredMinimalPositionAlongAxes_
-    grid = B.sx.default_value(('struct', 'GridIndexMapping_double_2'))
+    grid = B.sx.default_value(('struct', GI))
     grid['cellResolution_'] = res
     grid['flooredMinimalPositionAlongAxes_'] = list(go)
     centre = lambda a, idx: add(go[a], mul(add(app('to_real', idx), '0.5'), res))
     # contract of GridIndexMapping::computeCellCenterPosition (table entry = origin + (i + 1/2) res, proved in C13's A spec)
     from emit_smt import Cell
-    B.overrides['GridIndexMapping_double_2__computeCellCenterPosition'] = lambda args: [centre(a, args[1].v[a] if isinstance(args[1], Cell) else args[1][a]) for a in range(D)]
+    B.overrides[GI + '__computeCellCenterPosition'] = lambda args: [centre(a, args[1].v[a] if isinstance(args[1], Cell) else args[1][a]) for a in range(D)]
     o = B.vec('o', D)
     e = B.vec('e', D)
-    rc = B.sx.default_value(('struct', 'RayCasting_double_2'))
+    rc = B.sx.default_value(('struct', RCS))
     rc['gridIndexMapping_'] = Cell(grid)
     for k in ('rayOriginPoint_', 'rayEndPoint_', 'rayTMax_', 'rayTDelta_', 'rayDirection_'):
         rc[k] = [B.real('old_%s_%d' % (k, a)) for a in range(D)]
     rc['rayOriginIndexes_'] = [B.int('old_oi_%d' % a) for a in range(D)]
     rc['rayEndIndexes_'] = [B.int('old_ei_%d' % a) for a in range(D)]
     rc['rayStep_'] = [B.int('old_step_%d' % a) for a in range(D)]
-    B.call('RC2__setOriginPoint', rc, list(o))
-    B.call('RC2__setEndPoint', rc, list(e))
+    B.call(tag + '__setOriginPoint', rc, list(o))
+    B.call(tag + '__setEndPoint', rc, list(e))
     obl = B.take_obligations()
     oi = rc['rayOriginIndexes_']
     base = [app('>', res, '0.0')]
     # the origin point lies in the grid (quotient >= 1/2: C13) and is different from the end point
     base += [app('>=', app('/', sub(o[a], go[a]), res), '0.5') for a in range(D)]
     base += [lnot(land(*[app('=', o[a], e[a]) for a in range(D)]))]
-    rng = app('f_sqrt', add(mul(sub(e[0], o[0]), sub(e[0], o[0])), mul(sub(e[1], o[1]), sub(e[1], o[1]))))
-    B.libm('sqrt', [add(mul(sub(e[0], o[0]), sub(e[0], o[0])), mul(sub(e[1], o[1]), sub(e[1], o[1])))], 'true')
-    fse = ['RC2__setOriginPoint', 'RC2__setEndPoint']
+    sqn = fold(add, [mul(sub(e[a], o[a]), sub(e[a], o[a])) for a in range(D)])
+    rng = app('f_sqrt', sqn)
+    B.libm('sqrt', [sqn], 'true')
+    fse = [tag + '__setOriginPoint', tag + '__setEndPoint']
     B.vc('setEndPoint.range_positive', app('>', rng, '0.0'), base, functions=fse, timeout=120)
     rv = B.real('range_gen')
     GEN = [(rng, rv)]
@@ -83,13 +118,13 @@ def vcs(B):
     tm = B.vec('tmax', D); td = B.vec('tdelta', D)
     c = [B.int('cell_%d' % a) for a in range(D)]
     t_in = B.real('t_in')
-    st = B.sx.default_value(('struct', 'RayCasting_double_2'))
+    st = B.sx.default_value(('struct', RCS))
     st['gridIndexMapping_'] = Cell(grid)
     st['rayOriginPoint_'] = list(o); st['rayEndPoint_'] = list(e)
     st['rayOriginIndexes_'] = list(oi); st['rayEndIndexes_'] = [B.int('ei_%d' % a) for a in range(D)]
     st['rayDirection_'] = list(dirg); st['rayStep_'] = list(stepg); st['rayTMax_'] = list(tm); st['rayTDelta_'] = list(td)
     cell = list(c)
-    B.call('RC2__next', st, cell)
+    B.call(tag + '__next', st, cell)
     B.take_obligations()
     tm2 = st['rayTMax_']
     wf = [app('>', res, '0.0')]
@@ -106,10 +141,10 @@ def vcs(B):
         I.append(implies(m, app('=', add(o[a], mul(tm[a], dirg[a])), add(centre(a, c[a]), mul(app('to_real', stepg[a]), app('/', res, '2.0'))))))
         I.append(implies(m, land(app('<=', sub(tm[a], td[a]), t_in), app('<=', t_in, tm[a]))))
         I.append(implies(lnot(m), land(app('<=', sub(centre(a, c[a]), app('/', res, '2.0')), o[a]), app('<=', o[a], add(centre(a, c[a]), app('/', res, '2.0'))))))
-    fn = ['RC2__next']
-    tstar = ite(app('<', tm[0], tm[1]), tm[0], tm[1])       # crossing parameter of this step = the new entry parameter
+    fn = [tag + '__next']
+    tstar = fold(lambda x, y: ite(app('<', x, y), x, y), list(tm))       # crossing parameter of this step (the smallest tMax) = the new entry parameter
     # C14: moves to a face-adjacent cell at every step
-    l1 = add(ite(app('>=', sub(cell[0], c[0]), '0'), sub(cell[0], c[0]), neg(sub(cell[0], c[0]))), ite(app('>=', sub(cell[1], c[1]), '0'), sub(cell[1], c[1]), neg(sub(cell[1], c[1]))))
+    l1 = fold(add, [ite(app('>=', sub(cell[a], c[a]), '0'), sub(cell[a], c[a]), neg(sub(cell[a], c[a]))) for a in range(D)])
     B.vc('next.moves_to_a_face_adjacent_cell', app('=', l1, '1'), wf + I, functions=fn)
     for a in range(D):
         m = lnot(app('=', stepg[a], '0'))
@@ -154,8 +189,8 @@ def vcs(B):
         endfacts.append(implies(app('=', stepg[a], '(- 1)'), app('<', add(go[a], mul(app('to_real', ei[a]), res)), e[a])))
     J = [land(app('>=', mul(stepg[a], sub(ei[a], c[a])), '0'), implies(app('=', stepg[a], '0'), app('=', ei[a], c[a]))) for a in range(D)]
     iabs = lambda t: ite(app('>=', t, '0'), t, neg(t))
-    dist0 = add(iabs(sub(ei[0], c[0])), iabs(sub(ei[1], c[1])))
-    dist1 = add(iabs(sub(ei[0], cell[0])), iabs(sub(ei[1], cell[1])))
+    dist0 = fold(add, [iabs(sub(ei[a], c[a])) for a in range(D)])
+    dist1 = fold(add, [iabs(sub(ei[a], cell[a])) for a in range(D)])
     notyet = [app('>', dist0, '0')]
     for a in range(D):
         B.vc('next.stays_between_origin_and_end_cells.axis%d' % a, land(app('>=', mul(stepg[a], sub(ei[a], cell[a])), '0'), implies(app('=', stepg[a], '0'), app('=', ei[a], cell[a]))),
